@@ -520,3 +520,52 @@ func StructFieldsTerm(v reflect.Value) string {
 	}
 	return coqfmt.List(parts)
 }
+
+
+// AliasUserPtrs makes some same-typed, non-nil user-declared pointers (pointers
+// to non-structs) inside v point to the SAME variable.  Tree values cannot
+// tell, so the expected stacking result is unchanged; an implementation that
+// writes through such a pointer instead of replacing it is exposed.
+func AliasUserPtrs(r *coqfmt.Rng, v reflect.Value) int {
+	var ptrs []reflect.Value
+	var walk func(v reflect.Value, depth int)
+	walk = func(v reflect.Value, depth int) {
+		if depth > 6 {
+			return
+		}
+		switch v.Kind() {
+		case reflect.Struct:
+			if v.Type() == tTUp || v.Type() == tTUv {
+				return
+			}
+			for i := 0; i < v.NumField(); i++ {
+				if v.Type().Field(i).PkgPath != "" {
+					continue
+				}
+				walk(v.Field(i), depth+1)
+			}
+		case reflect.Ptr:
+			if v.IsNil() {
+				return
+			}
+			if v.Type().Elem().Kind() == reflect.Struct && v.Type().Elem() != tTUp && v.Type().Elem() != tTUv {
+				walk(v.Elem(), depth+1)
+				return
+			}
+			if v.CanSet() {
+				ptrs = append(ptrs, v)
+			}
+		}
+	}
+	walk(v, 0)
+	n := 0
+	for i := 0; i < len(ptrs); i++ {
+		for j := i + 1; j < len(ptrs); j++ {
+			if ptrs[i].Type() == ptrs[j].Type() && r.Chance(1, 2) {
+				ptrs[j].Set(ptrs[i])
+				n++
+			}
+		}
+	}
+	return n
+}
